@@ -324,7 +324,7 @@ pub fn drive(ctx: &Ctx) -> Summary {
                                          "ok_direct": ok_direct, "ok_subst": ok_subst}));
             events += 1;
         }
-        util::emit(&mut out, &json!({"ev": "done"}));
+        util::emit(&mut out, &json!({"ev": "done", "evals": events - 3}));
         o.count_n("events", events + 1);
         let distinct = seen.insert(tree.to_string());
         sum.absorb(&json!({"tree": tree}), &o, distinct);
